@@ -59,11 +59,14 @@ def parseCache? (t : String) : Option (Bytes × Int) :=
 
 def enumFrom' {α} (l : List α) : List (Nat × α) := (List.range l.length).zip l
 
-def hashObs (metric : Nat) (cache : List (Bytes × Int)) (tags : List (Nat × Bytes)) : String :=
+def hashObs (metric : Nat) (cache : List (Bytes × Int)) (tags : List (Nat × Bytes)) (scratch : Bytes) : String :=
   let h := mapAll cache tags
+  -- the driver has no xxh3; `hm` says whether the hash is H(exactly the marshalled bytes), which in the model it always is
+  let oh := originalHash (fun _ => 0) scratch metric h.ov
+  let hm := if oh.1 == marshal metric h.ov then 1 else 0
   let is := (enumFrom' h.tagsI).filter (fun p => p.2 != 0)
   let ss := (enumFrom' h.tagsS).filter (fun p => !p.2.isEmpty)
-  s!"m={showHex (marshal metric h.ov)} i={showList (is.map (fun p => s!"{p.1}:{p.2}"))} s={showList (ss.map (fun p => s!"{p.1}:{showHex p.2}"))}"
+  s!"m={showHex (marshal metric h.ov)} i={showList (is.map (fun p => s!"{p.1}:{p.2}"))} s={showList (ss.map (fun p => s!"{p.1}:{showHex p.2}"))} scr={showHex oh.1} hm={hm}"
 
 def step (s : S) (toks : List String) : S × List String :=
   match toks with
@@ -98,10 +101,10 @@ def step (s : S) (toks : List String) : S × List String :=
     let s' := flushAll s
     let newB := s'.out.drop s.out.length
     (s', newB.map bucketObs ++ [s!"end send={s'.send} n={newB.length}"])
-  | ["hash", metric, cache, tags] =>
-    match metric.toNat?, (parseList cache).mapM parseCache?, (parseList tags).mapM parseTag? with
-    | some metric, some cache, some tags => (s, [hashObs metric cache tags])
-    | _, _, _ => (s, ["bad-op"])
+  | ["hash", metric, cache, tags, scratch] =>
+    match metric.toNat?, (parseList cache).mapM parseCache?, (parseList tags).mapM parseTag?, parseHex? scratch with
+    | some metric, some cache, some tags, some scratch => (s, [hashObs metric cache tags scratch])
+    | _, _, _, _ => (s, ["bad-op"])
   | _ => (s, ["bad-op"])
 
 def main : IO Unit :=
